@@ -202,12 +202,18 @@ Tokenizer_parse_argument(Tokenizer *self)
 static int
 Tokenizer_parse_template_or_argument(Tokenizer *self)
 {
-    unsigned int braces = 2, i;
-    int has_content = 0;
+    unsigned int braces = 2, limit, i;
+    int has_content = 0, enclosing, status;
     PyObject *tokenlist;
 
     self->head += 2;
-    while (Tokenizer_read(self, 0) == '{' && braces < MAX_BRACES) {
+    // Every pair of braces can become one more level of nesting in the tree, so
+    // a run may not be longer than the depth limit allows:
+    limit = 2 * (MAX_DEPTH - self->depth);
+    if (limit > MAX_BRACES) {
+        limit = MAX_BRACES;
+    }
+    while (Tokenizer_read(self, 0) == '{' && braces < limit) {
         self->head++;
         braces++;
     }
@@ -221,6 +227,8 @@ Tokenizer_parse_template_or_argument(Tokenizer *self)
             }
             return 0;
         }
+        // The braces that stay open will enclose what is parsed now:
+        enclosing = (braces - 2) / 2;
         if (braces == 2) {
             if (Tokenizer_parse_template(self, has_content)) {
                 return -1;
@@ -234,12 +242,18 @@ Tokenizer_parse_template_or_argument(Tokenizer *self)
             }
             break;
         }
-        if (Tokenizer_parse_argument(self)) {
+        self->depth += enclosing;
+        status = Tokenizer_parse_argument(self);
+        self->depth -= enclosing;
+        if (status) {
             return -1;
         }
         if (BAD_ROUTE) {
             RESET_ROUTE();
-            if (Tokenizer_parse_template(self, has_content)) {
+            self->depth += enclosing;
+            status = Tokenizer_parse_template(self, has_content);
+            self->depth -= enclosing;
+            if (status) {
                 return -1;
             }
             if (BAD_ROUTE) {
